@@ -26,7 +26,16 @@ EXTENDS Layout
 
 Crossings == {"rust_arg", "rust_ret", "host_arg", "host_ret", "ctx", "const"}
 ScriptOps == {"construct", "match", "select", "index"}
+(* on the Rust side a list is put together from its elements (`rconstruct`: List::from(Vec), collect(), *)
+(* List::new + push, List::from([..])) and read back with to_vec (`rread`)                             *)
+RustOps   == {"rconstruct", "rread"}
+(* the registered constant read back in the other ways: taken apart by the script (constm), handed on  *)
+(* to a registered function (consth); `const` returns it                                               *)
+ConstRoutes == {"const", "constm", "consth"}
+(* construction routes of a list on the Rust side *)
+ListRoutes  == {"lvec", "lcollect", "lpush", "larray"}
 Routes    == {"id", "hecho", "hmeth", "hgive", "const", "ctx", "build", "buildf", "match", "index", "pick", "hpick"}
+               \cup ConstRoutes \cup ListRoutes
 
 (* ---- value classes of the leaves (the harness maps a class to a concrete value) -------- *)
 ClassSeq(l) ==
@@ -75,6 +84,10 @@ Hops(c) ==
        [] c.route \in {"hecho", "hmeth"} -> <<"rust_arg", "host_arg", "host_ret", "rust_ret">>   \* function / method
        [] c.route = "hgive" -> <<"host_ret", "rust_ret">>
        [] c.route = "const" -> <<"const", "rust_ret">>
+       [] c.route = "consth" -> <<"const", "host_arg", "host_ret", "rust_ret">>
+       [] c.route = "constm" -> <<"const", "match">> \o (IF payload THEN <<"host_arg">> ELSE <<>>)
+       (* Rust puts the list together, reads it back (to_vec), hands it to the script, which iterates over it *)
+       [] c.route \in ListRoutes -> <<"rconstruct", "rread", "rust_arg", "match", "host_arg">>
        [] c.route = "ctx"   -> <<"ctx", "rust_ret">>
        (* build: Option.Some(x) / Result.Err(e) / Verdict.Accept(x) / [x, ..]; buildf: `accept x` / `reject e` *)
        [] c.route \in {"build", "buildf"} -> (IF payload THEN <<"host_ret">> ELSE <<>>) \o <<"construct", "rust_ret">>
@@ -89,7 +102,7 @@ Start(c) ==
   LET t == TypeOf(c)
       v == Sent(c)
   IN CASE c.route \in {"pick", "hpick"} -> [ts |-> c.vec, vs |-> c.vals]
-       [] c.route \in {"build", "buildf"} /\ IsList(t) -> [ts |-> [i \in 1..Len(v.e) |-> t[2]], vs |-> v.e]
+       [] c.route \in {"build", "buildf"} \cup ListRoutes /\ IsList(t) -> [ts |-> [i \in 1..Len(v.e) |-> t[2]], vs |-> v.e]
        [] c.route \in {"build", "buildf"} /\ IsEnum(t) /\ HasPayload(t, v) -> [ts |-> <<PayloadType(t, v)>>, vs |-> <<v.p>>]
        [] c.route \in {"build", "buildf"} /\ IsEnum(t) /\ ~HasPayload(t, v) -> [ts |-> <<>>, vs |-> <<>>]
        [] OTHER -> [ts |-> <<t>>, vs |-> <<v>>]
@@ -121,6 +134,12 @@ Step(c, h, cur) ==
                       ELSE IF cur.vs = <<>> THEN [k |-> Sent(c).k]
                       ELSE EnumV(Sent(c).k, cur.vs[1])
          IN [cur |-> [ts |-> <<t>>, vs |-> <<Deliver(t, whole)>>], obs |-> <<>>]
+    [] h = "rconstruct" ->
+         (* Rust stores every element in its Roto representation, whichever way the list is made *)
+         [cur |-> [ts |-> <<t>>, vs |-> <<Deliver(t, ListV([i \in 1..Len(cur.vs) |-> Deliver(cur.ts[i], cur.vs[i])]))>>], obs |-> <<>>]
+    [] h = "rread" ->
+         (* Rust reads the list back (to_vec): every element in its Rust representation again *)
+         LET d == Deliver(t, cur.vs[1]) IN [cur |-> [ts |-> <<t>>, vs |-> <<d>>], obs |-> <<d>>]
     [] h = "match" ->
          (* the script reads the tag and binds the payload / iterates over the elements *)
          LET d == Deliver(t, cur.vs[1]) IN
@@ -160,8 +179,9 @@ ExpectedObs(c) ==
   LET t == TypeOf(c)
       v == Sent(c)
   IN CASE c.route \in {"id", "hgive", "const", "ctx", "build", "buildf"} -> <<v>>
-       [] c.route \in {"hecho", "hmeth"} -> <<v, v>>
-       [] c.route = "match" ->
+       [] c.route \in {"hecho", "hmeth", "consth"} -> <<v, v>>
+       [] c.route \in ListRoutes -> <<v, CodeO(Len(v.e))>> \o v.e
+       [] c.route \in {"match", "constm"} ->
             IF IsList(t) THEN <<CodeO(Len(v.e))>> \o v.e
             ELSE <<CodeO(Tag(t, v))>> \o (IF HasPayload(t, v) THEN <<v.p>> ELSE <<>>)
        [] c.route = "index" -> IF c.k <= Len(v.e) THEN <<CodeO(1), v.e[c.k]>> ELSE <<CodeO(0)>>
